@@ -339,6 +339,13 @@ def _check_loop_transcript(ctx, P, f, via):
             else:
                 n = F.table_len(src)
             lens.append(n)
+    if not zips:
+        from .protocols import _tuple_table_source
+
+        tab = _tuple_table_source(g, gev)
+        if tab is not None:
+            # one written-out table of (label, value) pairs: nothing is zipped, nothing can be dropped
+            lens = [len(tab)]
     known = bool(lens) and all(n is not None for n in lens)
     ctx.ob("E3.transcript", "%s/zip-lengths" % f.key, known and len(set(lens)) == 1, "transcript helper `%s` zips lists of length %s: %s" % (g.key, lens, "equal" if known and len(set(lens)) == 1 else "they must be statically known and equal - `zip` silently drops the tail of the longer list, i.e. a value the proof must bind"), where=where(g))
     res = F.loops_push_every_iteration(g, accept=lambda s: s.callee[0].endswith("Transcript::append_message"))
